@@ -747,6 +747,9 @@ impl<F: Read + Write + Seek> Package<F> {
         if !self.tables.contains_key(table_name) {
             not_found!("Table {:?} does not exist", table_name);
         }
+        // Delete the table's rows first, so that the strings they refer to
+        // are released from the string pool.
+        self.delete_rows(Delete::from(table_name))?;
         let stream_name = self.tables.get(table_name).unwrap().stream_name();
         if self.comp().exists(&stream_name) {
             self.comp_mut().remove_stream(&stream_name)?;
